@@ -9,7 +9,7 @@
    tools' chunks.  [answer c] is what the tool named by call [c] returns on [c]'s arguments
    (through the handler for an unknown name; [Err] if the name does not resolve). *)
 From Coq Require Import Permutation.
-From Eino Require Import Base.Util Model.Concat Model.ConcatMsg Model.Tools Model.ToolsMsg Proofs.Tools Proofs.ToolsMore Proofs.ToolsConcat.
+From Eino Require Import Base.Util Model.Concat Model.ConcatMsg Model.Tools Model.ToolsMsg Model.ToolsOpts Proofs.Tools Proofs.ToolsMore Proofs.ToolsConcat Proofs.ToolsOpts.
 Local Open Scope string_scope.
 
 (* N calls => exactly N messages, the i-th = (output of the i-th call's tool on its arguments,
@@ -306,6 +306,152 @@ Theorem tools_index_unknown :
 Proof. exact index_unknown. Qed.
 Print Assumptions tools_index_unknown.
 
+(* ---- the call's option list (getToolsNodeOptions) and the per-implementation options ------- *)
+(* [get_node_opts l] = (the tool list the call brings, the tool options every execution is handed)
+   after the options [l], in the order given.  Every WithToolOption counts, in order ... *)
+Theorem tools_node_opts_tool_options :
+  forall (P D : Type) (l : list (nodeopt P D)), snd (get_node_opts l) = flat_map tool_options_of l.
+Proof. exact node_opts_tool_options. Qed.
+Print Assumptions tools_node_opts_tool_options.
+
+(* ... the last WithToolList decides (None = WithToolList() without argument: no list) ... *)
+Theorem tools_node_opts_list_last :
+  forall (P D : Type) (l1 l2 : list (nodeopt P D)) x,
+    Forall is_tool_option l2 -> fst (get_node_opts (l1 ++ WithToolList x :: l2)) = x.
+Proof. exact node_opts_list_last. Qed.
+Print Assumptions tools_node_opts_list_last.
+
+Theorem tools_node_opts_no_list :
+  forall (P D : Type) (l : list (nodeopt P D)), Forall is_tool_option l -> fst (get_node_opts l) = None.
+Proof. exact node_opts_no_list. Qed.
+Print Assumptions tools_node_opts_no_list.
+
+(* ... and a tool reads, in the order given, exactly the options of its own implementation's type *)
+Theorem tools_impl_specific_own :
+  forall (P : Type) ty (a b : list (topt P)) p,
+    impl_specific ty (a ++ (ty, p) :: b) = (impl_specific ty a ++ p :: impl_specific ty b)%list.
+Proof. exact impl_specific_own. Qed.
+Print Assumptions tools_impl_specific_own.
+
+Theorem tools_impl_specific_foreign :
+  forall (P : Type) ty (a b : list (topt P)) o,
+    fst o <> ty -> impl_specific ty (a ++ o :: b) = impl_specific ty (a ++ b).
+Proof. exact impl_specific_foreign. Qed.
+Print Assumptions tools_impl_specific_foreign.
+
+(* ---- end to end on the DECLARED tools: NewToolNode, the option list, convTools of the call's
+   list, name resolution, execution — stated on call_invoke / call_stream_open / call_executed,
+   the definitions the correspondence check evaluates.
+   [call_decls cfg nopts] = the tool list in force, [call_topts nopts] = the tool options handed
+   to every execution, [decl_answer] / [decl_s_answer] = what the LAST tool declared under the
+   call's name in that list returns on the call's arguments and those options when invoked /
+   streamed (the unknown-tool handler for a name no tool carries); [call_lists_ok] = convTools
+   can take the configuration and the call's list. ------------------------------------------ *)
+Theorem tools_call_invoke_spec :
+  forall (P : Type) handler (cfg : list (tooldecl (list (topt P)))) nopts pi calls outs,
+    call_lists_ok P cfg nopts ->
+    calls <> [] ->
+    Permutation pi (seq 0 (List.length calls)) ->
+    Forall2 (fun c o => decl_answer _ handler (call_decls P cfg nopts) (call_topts P nopts) c = Ok (TOk o)) calls outs ->
+    call_invoke handler cfg nopts pi true calls = Ok (combine outs (map c_id calls))
+    /\ List.length (combine outs (map c_id calls)) = List.length calls
+    /\ call_executed handler cfg nopts true calls = calls.
+Proof. exact call_invoke_spec. Qed.
+Print Assumptions tools_call_invoke_spec.
+
+Theorem tools_call_stream_concat :
+  forall (P : Type) handler (cfg : list (tooldecl (list (topt P)))) nopts pi pi' calls css,
+    call_lists_ok P cfg nopts ->
+    calls <> [] ->
+    Permutation pi (seq 0 (List.length calls)) ->
+    Permutation pi' (seq 0 (List.length calls)) ->
+    Forall2 (fun c cs => decl_s_answer _ handler (call_decls P cfg nopts) (call_topts P nopts) c = Ok (SOk cs None) /\ cs <> []) calls css ->
+    Forall2 (fun c cs => decl_answer _ handler (call_decls P cfg nopts) (call_topts P nopts) c = Ok (TOk (concat_strings cs))) calls css ->
+    exists ss msgs,
+      call_stream_open handler cfg nopts pi true calls = Ok ss
+      /\ call_invoke handler cfg nopts pi' true calls = Ok msgs
+      /\ List.length msgs = List.length calls
+      /\ forall sched,
+           drained (merge_rest sched (stream_srcs ss)) = true ->
+           concat_pos (stream_ids ss) (fst (merge_run sched (stream_srcs ss))) = Ok (map Some msgs).
+Proof. exact call_stream_concat. Qed.
+Print Assumptions tools_call_stream_concat.
+
+Theorem tools_call_derived_consistent :
+  forall (P : Type) handler (cfg : list (tooldecl (list (topt P)))) nopts c cs,
+    call_lists_ok P cfg nopts ->
+    decl_s_answer _ handler (call_decls P cfg nopts) (call_topts P nopts) c = Ok (SOk cs None) -> cs <> [] ->
+    (forall d, decl_lookup _ (call_decls P cfg nopts) (c_name c) = Some d -> td_kind d <> Some KBoth) ->
+    decl_answer _ handler (call_decls P cfg nopts) (call_topts P nopts) c = Ok (TOk (concat_strings cs)).
+Proof. exact call_derived_consistent. Qed.
+Print Assumptions tools_call_derived_consistent.
+
+Theorem tools_call_fail :
+  forall (P : Type) handler (cfg : list (tooldecl (list (topt P)))) nopts pi calls pre c post outs r,
+    call_lists_ok P cfg nopts ->
+    Permutation pi (seq 0 (List.length calls)) ->
+    calls = (pre ++ c :: post)%list ->
+    (forall c', In c' calls -> exists r', decl_answer _ handler (call_decls P cfg nopts) (call_topts P nopts) c' = Ok r') ->
+    Forall2 (fun c o => decl_answer _ handler (call_decls P cfg nopts) (call_topts P nopts) c = Ok (TOk o)) pre outs ->
+    decl_answer _ handler (call_decls P cfg nopts) (call_topts P nopts) c = Ok r ->
+    (forall o, r <> TOk o) ->
+    call_invoke handler cfg nopts pi true calls =
+    match r with
+    | TErr e => Err e
+    | _ => match pre with [] => Panic | _ => Err E_PANIC end
+    end.
+Proof. exact call_fail. Qed.
+Print Assumptions tools_call_fail.
+
+Theorem tools_call_stream_fail :
+  forall (P : Type) handler (cfg : list (tooldecl (list (topt P)))) nopts pi calls pre c post r,
+    call_lists_ok P cfg nopts ->
+    Permutation pi (seq 0 (List.length calls)) ->
+    calls = (pre ++ c :: post)%list ->
+    (forall c', In c' calls -> exists r', decl_s_answer _ handler (call_decls P cfg nopts) (call_topts P nopts) c' = Ok r') ->
+    Forall (fun c => exists cs tl, decl_s_answer _ handler (call_decls P cfg nopts) (call_topts P nopts) c = Ok (SOk cs tl)) pre ->
+    decl_s_answer _ handler (call_decls P cfg nopts) (call_topts P nopts) c = Ok r ->
+    (forall cs tl, r <> SOk cs tl) ->
+    call_stream_open handler cfg nopts pi true calls =
+    match r with
+    | SErr e => Err e
+    | _ => match pre with [] => Panic | _ => Err E_PANIC end
+    end.
+Proof. exact call_stream_fail. Qed.
+Print Assumptions tools_call_stream_fail.
+
+Theorem tools_call_unknown :
+  forall (P : Type) handler (cfg : list (tooldecl (list (topt P)))) nopts pi calls c,
+    call_lists_ok P cfg nopts ->
+    In c calls -> decl_lookup _ (call_decls P cfg nopts) (c_name c) = None -> handler = None ->
+    call_invoke handler cfg nopts pi true calls = Err E_UNKNOWN
+    /\ call_stream_open handler cfg nopts pi true calls = Err E_UNKNOWN
+    /\ call_executed handler cfg nopts true calls = [].
+Proof. exact call_unknown. Qed.
+Print Assumptions tools_call_unknown.
+
+Theorem tools_call_bad_tool :
+  forall (P : Type) handler (cfg : list (tooldecl (list (topt P)))) nopts pi role_ok calls,
+    ~ call_lists_ok P cfg nopts ->
+    (exists e, call_invoke handler cfg nopts pi role_ok calls = Err e)
+    /\ (exists e, call_stream_open handler cfg nopts pi role_ok calls = Err e)
+    /\ call_executed handler cfg nopts role_ok calls = [].
+Proof. exact call_bad_tool. Qed.
+Print Assumptions tools_call_bad_tool.
+
+(* WithToolList() without argument withdraws a list given before it; a later list replaces an earlier one *)
+Theorem tools_call_list_withdrawn :
+  forall (P : Type) (cfg : list (tooldecl (list (topt P)))) l1 l2,
+    Forall is_tool_option l2 -> call_decls P cfg (l1 ++ WithToolList None :: l2) = cfg.
+Proof. exact call_list_withdrawn. Qed.
+Print Assumptions tools_call_list_withdrawn.
+
+Theorem tools_call_list_last_wins :
+  forall (P : Type) (cfg : list (tooldecl (list (topt P)))) l1 l2 l,
+    Forall is_tool_option l2 -> call_decls P cfg (l1 ++ WithToolList (Some l) :: l2) = l.
+Proof. exact call_list_last_wins. Qed.
+Print Assumptions tools_call_list_last_wins.
+
 (* ---- the concatenation is the framework's own (property C14's model) --------------------- *)
 (* [U] = the concat functions the application registered (C14's model is generic in them; tool
    messages never reach one).  [framework_concat ids em] = C14's model of concatStreamReader / concatMessageArray /
@@ -428,3 +574,25 @@ Example conv_nonvacuous :
   /\ node_invoke None good (Some bad) "<o>" [0]%nat true [mkCall "c0" "ta" "x"] = Err E_NOTRUNNABLE
   /\ node_invoke None good (Some [mkTD false "ta" (Some KInv) impl]) "<o>" [0]%nat false [] = Err E_TOOLINFO.
 Proof. vm_compute. repeat split; reflexivity. Qed.
+
+(* the option list: a list given and withdrawn, tool options of two implementation types around
+   it; "ta" reads the options of type 1, "tb" those of type 2, the call list's "tz" is not in force *)
+Example call_option_list_nonvacuous :
+  let impl (ty : N) (n : string) := mkTI (fun (os : list (topt string)) a => TOk (concat_strings (impl_specific ty os) ++ n ++ ":" ++ a))
+                                         (fun (os : list (topt string)) a => SOk [concat_strings (impl_specific ty os); n; a] None) in
+  let cfg := [mkTD true "ta" (Some KInv) (impl 1%N "ta"); mkTD true "tb" (Some KStr) (impl 2%N "tb")] in
+  let tz := [mkTD true "tz" (Some KInv) (impl 1%N "tz")] in
+  let nopts := [WithToolOption [(1%N, "<a>"); (2%N, "<b>")]; WithToolList (Some tz); WithToolOption [(1%N, "<c>")];
+                WithToolList None; WithToolOption [(2%N, "<d>")]] in
+  let calls := [mkCall "c0" "ta" "x"; mkCall "c1" "tb" "y"] in
+  call_lists_ok string cfg nopts
+  /\ Forall2 (fun c o => decl_answer _ None (call_decls string cfg nopts) (call_topts string nopts) c = Ok (TOk o)) calls ["<a><c>ta:x"; "<b><d>tby"]
+  /\ call_invoke None cfg nopts [1; 0]%nat true calls = Ok [("<a><c>ta:x", "c0"); ("<b><d>tby", "c1")]
+  /\ call_invoke None cfg (firstn 3 nopts) [0]%nat true [mkCall "c0" "tz" "x"] = Ok [("<a><c>tz:x", "c0")]
+  /\ call_invoke None cfg (firstn 3 nopts) [0]%nat true [mkCall "c0" "ta" "x"] = Err E_UNKNOWN.
+Proof.
+  vm_compute. repeat split; try reflexivity.
+  - repeat constructor; discriminate.
+  - intros l H; discriminate.
+  - repeat constructor.
+Qed.
